@@ -7,6 +7,7 @@ package pubsub
 // reflection walk over the whole PubSub object graph and from the connection manager's protections.
 
 import (
+	"os"
 	"context"
 	"fmt"
 	"log/slog"
@@ -234,9 +235,13 @@ func c13RunInBubble(t *testing.T, c c13Case, res *vfResult) {
 				}
 			}
 		case "blacklist":
+			hadQueue := false
+			n.eval(func() { _, hadQueue = n.ps.peers[vfPeer(op.P).ID] })
 			n.ps.BlacklistPeer(vfPeer(op.P).ID)
-			n.eval(func() {})
-			noteClose(op.P)
+			n.settle()
+			if hadQueue {
+				noteClose(op.P) // only then does the router hear of a closed stream
+			}
 			blacklisted[op.P] = true
 			outUp[op.P] = false
 			res.label("blacklisted")
@@ -423,6 +428,14 @@ func c13RunInBubble(t *testing.T, c c13Case, res *vfResult) {
 				continue // configuration, not peer state
 			}
 			res.violate("C13/leak:connmgr-protection", p, "peer %d is still protected in the connection manager under %q", p, tag)
+		}
+	}
+	if os.Getenv("VF_DEBUG") != "" && len(res.Viols) > 0 {
+		for _, e := range n.raw.snapshot() {
+			if e.Kind == "send" || e.Kind == "recv" || e.Kind == "drop" {
+				continue
+			}
+			fmt.Printf("DEBUG %8v %-10s peer=%d topic=%s msg=%q reason=%s\n", e.At, e.Kind, n.byID[e.Peer], e.Topic, e.MsgID, e.Reason)
 		}
 	}
 	res.NT = afterOutClose || crossed || lateValidation
